@@ -51,10 +51,24 @@ theorem C09_restart_unpauses (s : Sys) (c : Cid) (hf : s.fixedLaunch = true)
 escalation chain, as a system message. -/
 theorem C09_resume_reaches_chain (s : Sys) (sup : Cid) (f : Cid) (rest : List (Cid × List Cid))
     (hs : (s.ctx sup).strat = 1) (hd : (s.ctx sup).decisions = [5]) :
-    onSupervise s sup ((f, []) :: rest) =
+    onSuperviseDecide s sup ((f, []) :: rest) =
       tellAll (tellAll (say (upd s sup (fun x => { x with decIdx := x.decIdx + 1 })) s!"decide:{sup}:{f}:{5}")
         true (some sup) [f] .cmdPause) true (some sup) ([f] ++ (rest.map (·.2)).flatten) .cmdResume := by
-  unfold onSupervise
+  unfold onSuperviseDecide
   simp [hs, hd, Nat.mod_one]
+
+/-- The strategy is applied (`onSuperviseDecide`, the subject of the theorems above and of `C08*`) exactly when the
+supervisor is running. -/
+theorem C08_running_supervisor_decides (s : Sys) (sup : Cid) (chain : List (Cid × List Cid))
+    (h : (s.ctx sup).state = .running) : onSupervise s sup chain = onSuperviseDecide s sup chain := by
+  unfold onSupervise; simp [h]
+
+/-- A supervisor that is already stopping takes no decision: it ends the failing child with an immediate (system) kill —
+which a paused mailbox still processes — so the child can neither stay paused for good nor keep its stopping parent
+waiting (the kill it may have been handed before as a poison pill sits behind the pause). -/
+theorem C09_stopping_supervisor_kills_failing_child (s : Sys) (sup f : Cid) (ts : List Cid)
+    (rest : List (Cid × List Cid)) (h : (s.ctx sup).state ≠ .running) :
+    onSupervise s sup ((f, ts) :: rest) = tell s true (some sup) (.own f) (.onKill false) := by
+  unfold onSupervise; simp [h]
 
 end Vivid.ActorSys
